@@ -719,6 +719,58 @@ def split_sweep(ctx):
 _CAP = {}
 
 
+def stale_copies(ctx, rule):
+    """the size limits are class attributes of Packet that setMTU rewrites at run time; every consumer must read them where it
+    uses them.  A copy that outlives the call that made it (an attribute, a class- or module-level name, a parameter default)
+    keeps the value of the MTU that was configured when the copy was made."""
+    setmtu = ctx.fn("connection:Packet.setMTU")
+    live = set()
+    for n in walk_own(setmtu.node):
+        if isinstance(n, ast.Attribute) and isinstance(n.ctx, ast.Store) and norm(n.value) == "Packet":
+            live.add(n.attr)
+    if not ctx.require(rule, setmtu, "Packet.setMTU rewrites the size limits", len(live), 3):
+        return
+
+    def reads(expr):
+        return sorted({x.attr for x in ast.walk(expr) if isinstance(x, ast.Attribute) and x.attr in live and norm(x.value) in ("Packet", "connection.Packet")})
+    bad = []
+    n_sites = 0
+    for fi in ctx.repo.all_functions():
+        if fi.is_lambda or fi.module.name not in ("connection", "client", "server", "context", "twisted", "handler"):
+            continue
+        if fi.qual == setmtu.qual:
+            continue
+        for n in walk_own(fi.node):
+            if isinstance(n, (ast.Assign, ast.AnnAssign, ast.AugAssign)) and getattr(n, "value", None) is not None:
+                r = reads(n.value)
+                if not r:
+                    continue
+                n_sites += 1
+                tgts = n.targets if isinstance(n, ast.Assign) else [n.target]
+                for t in tgts:
+                    for x in ast.walk(t):
+                        if isinstance(x, ast.Attribute) and isinstance(x.ctx, ast.Store):
+                            bad.append((fi, n, r, norm(x)))
+        a = fi.node.args
+        for d in a.defaults + [k for k in a.kw_defaults if k is not None]:
+            r = reads(d)
+            if r:
+                bad.append((fi, d, r, "default argument"))
+    for mod in ("connection", "client", "server", "context", "twisted", "handler"):
+        m = ctx.repo.mod(mod)
+        for cls_or_mod in [m.tree] + [c for c in ast.walk(m.tree) if isinstance(c, ast.ClassDef) and c.name != "Packet"]:
+            for n in cls_or_mod.body:
+                if isinstance(n, (ast.Assign, ast.AnnAssign)) and getattr(n, "value", None) is not None and reads(n.value):
+                    bad.append((m, n, reads(n.value), "module / class level name"))
+    for (where, n, r, tgt) in bad:
+        ctx.violated(rule, where if hasattr(where, "qual") else "%s:<module>" % where.name, n,
+                     "copy of the MTU-dependent limit %s kept in %s: a later Packet.setMTU() is not seen by its readers" % (", ".join("Packet." + x for x in r), tgt),
+                     witness={"copied": r, "kept_in": tgt}, line=getattr(n, "lineno", 0))
+    if not bad:
+        ctx.holds(rule, setmtu, "no stored copy of an MTU-dependent limit (%s)" % ", ".join(sorted(live)),
+                  "every consumer reads the limits where it uses them (%d local uses in assignments inspected)" % n_sites)
+
+
 def capacity(ctx):
     k = id(ctx.repo)
     if k not in _CAP:
